@@ -153,7 +153,7 @@ def make_doc(item):
 def _task(task):
     t = Tally()
     states = set()
-    prev = (None, None, None)
+    prevs = []
     for j, item in enumerate(task["items"]):
         try:
             with case_alarm(120):
@@ -169,18 +169,19 @@ def _task(task):
                         g1_now = cycle_check(t, defn, case, states)
                         # writing a definition does not depend on what was loaded or written in between: the definition written before this
                         # one (another document, usually another namespace convention) is written again and must come out as it did then
-                        if prev[0] is not None and g1_now is not None:
+                        for pv in prevs if g1_now is not None else ():
                             t.evals += 1
                             t.transitions += 1
                             try:
-                                again = W(prev[0])
+                                again = W(pv[0])
                             except Exception as e:  # noqa: BLE001
                                 again = f"raised {type(e).__name__}".encode()
-                            if again != prev[1]:
-                                t.violation({"kind": "write-depends-on-other-loads", "style_then": prev[2]["style"], "style_between": style},
-                                            {"first": prev[2], "then": case}, note="W(A), load and cycle B, W(A) again: the two writes of A differ")
+                            if again != pv[1]:
+                                t.violation({"kind": "write-depends-on-other-loads", "style_then": pv[2]["style"], "style_between": style},
+                                            {"first": pv[2], "then": case}, note="W(A), load and cycle B, W(A) again: the two writes of A differ")
                         if g1_now is not None:
-                            prev = (defn, g1_now, case)
+                            # remember the latest definition loaded from XML and the latest built from objects, one of each per style
+                            prevs = [pv for pv in prevs if (pv[2]["via"], pv[2]["style"]) != (via, style)][-2:] + [(defn, g1_now, case)]
                 t.programs += 1
                 t.nontrivial += 1
         except BaseException as e:  # noqa: BLE001
@@ -245,7 +246,7 @@ def run(ctx):
         "exhaustive": True,
         "bound": (f"{len(items)} documents of the C09 family (palette kinds alone / ordered pairs, container trees, the attribute-coverage families) x namespace configurations "
                   "{prefix xtce, upper-case prefix XTCE, default namespace, none} (all four for every third document and all trees, one rotating otherwise) x "
-                  "{loaded from XML, built from objects}; 3 write/load cycles each; each definition is written once more after the NEXT document (usually in another namespace convention) was loaded and cycled; a sample re-serialized in two subprocesses with different PYTHONHASHSEED"),
+                  "{loaded from XML, built from objects}; 3 write/load cycles each; the last definitions (one per namespace convention and origin, up to three) are written once more after every later document was loaded and cycled; a sample re-serialized in two subprocesses with different PYTHONHASHSEED"),
         "rule": ("one evaluation = one document/config taken through G1..G4; states = distinct serializations reached; transitions = write and load "
                  "steps; traces = complete cycles compared"),
     }
